@@ -32,6 +32,7 @@ class LiftGen:
                         and not any(k in ctx for k, _ in self.by_opcode[a["opcode"]]["ops"])
                         and self.by_opcode[a["opcode"]]["name"] in block_names]
         self.cursor = {}
+        self.arm_cursor = 0
         self.counter = 100
 
     def distinct(self):
@@ -235,7 +236,12 @@ class LiftGen:
                     insts.append(Inst(g.opv["Phi"], "Phi", pt, fresh(), [Op("w", idr, 9000 + rnd.randrange(9)), Op("w", idr, 9100)]))
                     args.append("t%d" % tok[pt])
                 for _ in range(rnd.randrange(0, nops)):
-                    arm = rnd.choice(self.op_arms)
+                    # sweep: every arm of lift_op in turn (every run covers the whole table), then random ones
+                    if self.arm_cursor < len(self.op_arms):
+                        arm = self.op_arms[self.arm_cursor]
+                        self.arm_cursor += 1
+                    else:
+                        arm = rnd.choice(self.op_arms)
                     e = self.by_opcode[arm["opcode"]]
                     has_rt = any(k == "IdResultType" for k, _ in e["ops"])
                     i = self.from_fields(arm, env, rnd.choice(types) if has_rt else None, fresh())
